@@ -136,12 +136,15 @@ def to_lean(expr_src, names, objs, lookups=None):
                     raise Unsupported("async comprehension")
                 targets.extend(_stored_names(g.target))
             b2 = bound | set(targets)
+            # the iterable of the first `for` is evaluated in the enclosing scope
+            first = conv(n.generators[0].iter, bound)
             inner = [conv(n.elt, b2)]
-            for g in n.generators:
-                inner.append(conv(g.iter, b2))
+            for gi, g in enumerate(n.generators):
+                if gi > 0:
+                    inner.append(conv(g.iter, b2))
                 inner.extend(conv(c, b2) for c in g.ifs)
             comps.append((i, n))
-            return {"k": "comp", "id": i, "targets": targets, "inner": inner}
+            return {"k": "comp", "id": i, "targets": targets, "first": first, "inner": inner}
         raise Unsupported(type(n).__name__)
 
     try:
